@@ -266,14 +266,14 @@ void logEncode(Encoder* enc, Episode& e, const std::vector<Packet>& batch, const
         batchPacket(o, p);
     o.endArr();
     o.obj("ctx").kv("min", ctx.minBytesPerMessage).kv("max", ctx.maxBytesPerMessage).end();
-    logFrames(o, "frames", frames);
+    logFrames(o, "frames", frames, ctx.maxBytesPerMessage);
     encStateFields(o, *enc);
     {
         // the same batch on a fresh encoder with the same ids (C10), and the frames through a fresh decoder (C01)
         Encoder fresh;
         fresh.setDeviceId(enc->getDeviceId());
         fresh.setStreamId(enc->getStreamId());
-        logFrames(o, "fresh", fresh.encode(batch.begin(), batch.end(), ctx));
+        logFrames(o, "fresh", fresh.encode(batch.begin(), batch.end(), ctx), ctx.maxBytesPerMessage);
         Decoder dec;
         o.arr("decoded");
         for (const auto& f : frames)
